@@ -397,6 +397,14 @@ fn run_shard<F>(cfg: &ChoiceRun, shard: u64, cases: u32, f: &F) -> (Stats, Optio
 where
     F: Fn(&mut Chooser) -> Outcome + Sync,
 {
+    run_shard_logged(cfg, shard, cases, f, &|_| {})
+}
+
+/// like run_shard; `before` is told the choice sequence of every case before it is evaluated
+pub fn run_shard_logged<F>(cfg: &ChoiceRun, shard: u64, cases: u32, f: &F, before: &dyn Fn(&[u32])) -> (Stats, Option<Violation>)
+where
+    F: Fn(&mut Chooser) -> Outcome + ?Sized,
+{
     let seed = derive_seed(cfg.env.seed, &format!("{}/{}", cfg.pid, cfg.part), shard);
     let config = Config {
         cases,
@@ -411,6 +419,7 @@ where
     let stats = Mutex::new(Stats::default());
     let failed = AtomicBool::new(false);
     let res = runner.run(&strategy, |choices| {
+        before(&choices);
         let mut ch = Chooser::new(&choices);
         let counting = !failed.load(Ordering::Relaxed);
         ch.want_sample = counting && stats.lock().unwrap().samples.len() < 3;
@@ -443,6 +452,7 @@ where
     match res {
         Ok(()) => (stats, None),
         Err(TestError::Fail(_, minimal)) => {
+            before(&minimal);
             let mut ch = Chooser::new(&minimal);
             ch.want_sample = true;
             let out = f(&mut ch);
